@@ -2,11 +2,16 @@
    (definitions only).  Each guard is evaluated on the state BEFORE the operation: the ordered map
    [m] (and, for the exhausted-key classes, the trie [t] that represents it). *)
 From Common Require Import Bytes Outcome.
-From Trie Require Import Nibbles Node Encode Model Spec.
+From Trie Require Import Nibbles Node Encode Model Spec GoSpec.
 From C02 Require Import Model.
 From Coq Require Import Arith.
 
-(* 0 = no guard; otherwise the number of the finding class the operation lies in *)
+(* 0 = no guard; otherwise the number of the finding class the operation lies in.
+   Limited clear (audit round: narrowed): limit 0 only meets clear-limit-zero (the trie is not
+   looked at, so the prefix does not matter); for limit > 0 the order guard is evaluated on the keys
+   the Go code matches, and prefix-trim only when the trimmed prefix changes the result
+   (guard_trim_limit: one of the [limit] smallest keys the code matches lacks the byte prefix, or
+   the "none remain" flags differ) — not whenever some stored key matches the trimmed prefix only. *)
 Definition guard_of (m : bmap) (t : trie) (o : op) : nat :=
   match o with
   | OpGet k => if guard_get_exhausted t k then 1 else 0
@@ -14,10 +19,20 @@ Definition guard_of (m : bmap) (t : trie) (o : op) : nat :=
   | OpKeys p => if guard_trim m p then 3 else 0
   | OpClear p => if guard_trim m p then 3 else 0
   | OpClearLimit p l =>
-    if guard_trim m p then 3
-    else if guard_limit_zero m p l then 4
-    else if guard_limit_order m p l then 5
+    if (l =? 0)%N then (if guard_limit_zero m p l then 4 else 0)
+    else if guard_limit_order_go m p l then 5
+    else if guard_trim_limit m p l then 3
     else 0
+  | _ => 0
+  end.
+
+(* the guards that remain when the trie is compared with the ordered map under the Go matching
+   rule (run_gomap): the exhausted-key classes and clear-limit-order *)
+Definition guard_go_of (t : trie) (m : bmap) (o : op) : nat :=
+  match o with
+  | OpGet k => if guard_get_exhausted t k then 1 else 0
+  | OpDel k => if guard_delete_exhausted t k then 2 else 0
+  | OpClearLimit p l => if guard_limit_order_go m p l then 5 else 0
   | _ => 0
   end.
 
